@@ -297,6 +297,45 @@ pub fn history(bytes: &[u8]) -> (Vec<Snippet>, Vec<&'static str>) {
                 v.push(Snippet::Code(s, "import"));
                 labels.push("import");
             }
+            12 => {
+                // a snippet that ends normally after a return inside a finally block swallowed an
+                // exception in flight: the next snippet's finally blocks must see nothing pending
+                let f = g.fresh_pub("sw");
+                let thrower: Stmt = match g.rd.below(3) {
+                    0 => Stmt::new(StmtKind::Throw(Expr::str("swallowed"))),
+                    1 => Stmt::expr(Expr::bin(BinOp::Add, Expr::Nil, Expr::Num(1.0))),
+                    _ => Stmt::expr(Expr::invoke(Expr::VecLit(vec![]), "pop", vec![])),
+                };
+                v.push(Snippet::Code(
+                    vec![
+                        Stmt::new(StmtKind::Fn(Rc::new(FnDef {
+                            name: std::cell::RefCell::new(f.clone()),
+                            params: vec![],
+                            body: Body::Block(vec![Stmt::new(StmtKind::Try(
+                                vec![thrower],
+                                None,
+                                Some(vec![Stmt::new(StmtKind::Return(Some(Expr::str("from finally"))))]),
+                            ))]),
+                            kind: FnKind::Function,
+                        }))),
+                        Stmt::print(Expr::callv(&f, vec![])),
+                    ],
+                    "swallow_in_finally",
+                ));
+                labels.push("swallow_in_finally");
+                v.push(Snippet::Code(
+                    vec![
+                        Stmt::new(StmtKind::Try(
+                            vec![Stmt::print(Expr::str("probe body"))],
+                            None,
+                            Some(vec![Stmt::print(Expr::str("probe finally"))]),
+                        )),
+                        Stmt::print(Expr::str("after probe")),
+                    ],
+                    "probe_after_swallow",
+                ));
+                labels.push("probe_after_swallow");
+            }
             11 => {
                 // a fiber held by a global dies of an uncaught error in one snippet; later snippets see
                 // a finished fiber, not one that still has frames, handlers or a caller
@@ -496,6 +535,7 @@ impl Property for C15 {
                     rendered.push_str(&format!("--- snippet {} ({})\n{}", i + 1, tag, src));
                     sh.events.borrow_mut().clear();
                     sh.pending_finally.set(0);
+                    sh.e11_armed.set(false);
                     sh.steps.set(0);
                     rctx.fs.try_depth.set(0);
                     let rend = run_snippet(&rctx, &rmain, stmts);
